@@ -25,6 +25,56 @@ def mro_methods(prog, cname, mname):
     return out
 
 
+def must_effects(prog, cname, mname, _depth=0, _after=None):
+    """What `obj.mname()` certainly does for an object of class cname, in order, on every normal path: a list of ('set', field, node) and
+    ('fire', text, node) items.  Calls of methods of self are followed with dynamic dispatch from cname (`self.m()`), `super().m()` from
+    the class after the one being read; branches contribute what both arms do; loops nothing; after a statement that may return early
+    nothing more is certain."""
+    r = prog.resolve(cname, mname, after=_after) if _after else prog.resolve(cname, mname)
+    if not r or r[1] is None or _depth > 6:
+        return []
+    dci, fn = r
+
+    def block(stmts):
+        out = []
+        for st in stmts:
+            if isinstance(st, (ast.Assign, ast.AnnAssign)) and getattr(st, 'value', None) is not None:
+                out += expr(st.value)
+                for t in (st.targets if isinstance(st, ast.Assign) else [st.target]):
+                    for x in ([t] if not isinstance(t, (ast.Tuple, ast.List)) else t.elts):
+                        if is_self_attr(x):
+                            out.append(('set', x.attr, st))
+            elif isinstance(st, ast.Expr):
+                out += expr(st.value)
+            elif isinstance(st, ast.If):
+                a, b = block(st.body), block(st.orelse)
+                keys_b = {(k, v) for (k, v, _n) in b}
+                out += [it for it in a if (it[0], it[1]) in keys_b]
+                if any(isinstance(x, ast.Return) for x in ast.walk(st)):
+                    break
+            elif isinstance(st, ast.Try):
+                out += block(st.finalbody)
+            elif isinstance(st, (ast.Return, ast.Raise)):
+                if isinstance(st, ast.Return) and st.value is not None:
+                    out += expr(st.value)
+                break
+        return out
+
+    def expr(e):
+        out = []
+        for x in ast.walk(e):
+            if isinstance(x, ast.Call) and isinstance(x.func, ast.Attribute):
+                if isinstance(x.func.value, ast.Name) and x.func.value.id == 'self':
+                    if x.func.attr in ('fire', 'fire_event', 'fire_timed', 'fire_timed_event'):
+                        out.append(('fire', unparse(x.args[0] if x.func.attr in ('fire', 'fire_event') or len(x.args) < 2 else x.args[1]) if x.args else '', x))
+                    else:
+                        out += must_effects(prog, cname, x.func.attr, _depth + 1)
+                elif is_super_call(x.func.value):
+                    out += must_effects(prog, cname, x.func.attr, _depth + 1, _after=dci.name)
+        return out
+    return block(body_of(fn))
+
+
 # --------------------------------------------------------------------------- reset completeness (R9.3 / R10.3)
 def reset_completeness(ctx, rule, classes, extra_writers=('end_observations',)):
     prog = ctx.prog
@@ -57,6 +107,19 @@ def reset_completeness(ctx, rule, classes, extra_writers=('end_observations',)):
                       and any(is_self_attr(t, f) for t in (st.targets if isinstance(st, ast.Assign) else [st.target]))]
                 if ws and not g.reaches(g.entry, g.exit, avoid=ws, labels_excluded=NORMAL):
                     ini.add(f)
+        # ... and whatever the methods initialize() calls on self / super certainly assign (template methods, reset hooks)
+        eff = must_effects(prog, c, 'initialize')
+        ini |= {f for (k, f, _n) in eff if k == 'set'}
+        # a notification from inside initialize() must find the statistic completely reset: listeners may feed or query it re-entrantly
+        fires = [i for i, (k, _f, _n) in enumerate(eff) if k == 'fire']
+        late = [(f, n_) for i, (k, f, n_) in enumerate(eff) if k == 'set' and fires and i > fires[0] and f in reg]
+        ctx.ob(rule, f'{c}:notify-after-reset', not late, sample=f'{c}.initialize(): every accumulator is reset before the first notification: {not late}')
+        if late:
+            f, n_ = late[0]
+            ctx.finding(rule, f'{c}.initialize:notify-before-reset:{f}', prog.classes[c], n_,
+                        f'{c}.initialize() fires `{eff[fires[0]][1]}` before `{f}` (and {len(late) - 1} more accumulator(s)) is reset: a listener that registers an observation '
+                        f'or reads the statistic from that notification works on the state of the previous period, and what it registers is wiped afterwards',
+                        where=f'{c}.initialize')
         missing = sorted(reg - ini)
         ok = not missing
         ctx.ob(rule, c, ok, sample=f'{c}: register writes {sorted(reg)}; initialize resets all: {ok}')
@@ -355,8 +418,16 @@ def timestamp_protocol(ctx):
         ctx.finding('R10.4', 'TimestampWeightedTally.end_observations', ci, eo, 'end_observations must be `self.register(t, last_value)` followed by `_active = False`',
                     where='TimestampWeightedTally.end_observations')
     # initialize chains to the base and resets the timestamp state
-    ini = prog.method('TimestampWeightedTally', 'initialize', inherited=False)
-    chained = any(isinstance(c, ast.Call) and isinstance(c.func, ast.Attribute) and c.func.attr == 'initialize' and is_super_call(c.func.value) for c in walk_shallow(ini))
+    r_ini = prog.resolve('TimestampWeightedTally', 'initialize')
+    if not r_ini or r_ini[1] is None:
+        raise AnalysisError('anchor vanished: method TimestampWeightedTally.initialize')
+    ini = r_ini[1]
+    base_reg = set()
+    for (ci2, f2) in mro_methods(prog, 'WeightedTally', 'register'):
+        base_reg |= self_writes(f2)
+    eff_ = {f for (k, f, _n) in must_effects(prog, 'TimestampWeightedTally', 'initialize') if k == 'set'}
+    chained = base_reg <= eff_ or any(isinstance(c, ast.Call) and isinstance(c.func, ast.Attribute) and c.func.attr == 'initialize' and is_super_call(c.func.value)
+                                      for c in walk_shallow(ini))
     ctx.ob('R10.4', 'initialize-chain', chained)
     if not chained:
         ctx.finding('R10.4', 'TimestampWeightedTally.initialize:super', ci, ini, 'initialize does not call super().initialize(): the weighted accumulators are not reset',
